@@ -36,6 +36,137 @@ fn c16e_request_path_short_5() {
     check_short::<5>();
 }
 
+//------------ C11: delta retention and serial numbering (in-memory step) -------
+//
+// Fixture: an `RrdpServer` needs parsed URIs and paths that the retention code
+// never reads. The harnesses write only the fields the functions under test
+// read (`deltas`; plus `serial`, `snapshot`, `staged_elements`, `last_update`
+// for apply_rrdp_updated) into a `MaybeUninit<RrdpServer>`; CBMC treats the
+// rest as arbitrary. All maps are empty (seed stub), all deltas carry no
+// elements, so the size-based truncation keeps everything and the age/number
+// rules are what is decided.
+
+use crate::config::verif_kani::{const_finish, fixed_random_state, noop_write, stub_now, sym_now, t0};
+
+fn delta_at(serial: u64, age_s: u32, now: Time) -> DeltaData {
+    DeltaData::new(serial, now - Duration::seconds(age_s as i64), RrdpFileRandom(String::new()), DeltaElements::default())
+}
+
+fn any_rrdp_config() -> RrdpUpdatesConfig {
+    let min_nr: usize = kani::any();
+    let max_nr: usize = kani::any();
+    // documented configuration: at least one delta may be kept, min <= max
+    kani::assume(max_nr >= 1 && max_nr <= 8 && min_nr <= max_nr);
+    RrdpUpdatesConfig {
+        rrdp_delta_files_min_nr: min_nr,
+        rrdp_delta_files_min_seconds: kani::any::<u16>() as u32,
+        rrdp_delta_files_max_nr: max_nr,
+        rrdp_delta_files_max_seconds: kani::any::<u16>() as u32,
+        rrdp_delta_interval_min_seconds: 0,
+        rrdp_files_archive: false,
+    }
+}
+
+/// Age/number retention over three existing deltas (newest first, ages
+/// non-decreasing): the number kept plus the delta about to be added never
+/// exceeds the configured maximum, is never below the configured minimum
+/// (when that many exist), every delta younger than the minimum age is kept,
+/// nothing older than the maximum age is kept beyond the minimum number, and
+/// what is kept is a prefix of the list (so the retained serials stay a
+/// contiguous run ending at the newest).
+// vk: bound=3 existing deltas with arbitrary non-decreasing ages < 2^17 s, min/max number 0..=8 with 1 <= max and min <= max, min/max age 0..=65535 s, now in a 2^20 s window
+#[kani::proof]
+#[kani::unwind(6)]
+#[kani::stub(rpki::repository::x509::Time::now, stub_now)]
+fn c11a_retention_by_age_and_number() {
+    let now = sym_now();
+    let ages: [u32; 3] = kani::any();
+    kani::assume(ages[0] < (1 << 17) && ages[1] < (1 << 17) && ages[2] < (1 << 17));
+    kani::assume(ages[0] <= ages[1] && ages[1] <= ages[2]);
+    let mut deltas = VecDeque::new();
+    deltas.push_back(delta_at(9, ages[0], now));
+    deltas.push_back(delta_at(8, ages[1], now));
+    deltas.push_back(delta_at(7, ages[2], now));
+    let mut slot = std::mem::MaybeUninit::<RrdpServer>::uninit();
+    let p = slot.as_mut_ptr();
+    unsafe { std::ptr::addr_of_mut!((*p).deltas).write(deltas); }
+    let server: &RrdpServer = unsafe { &*p };
+    let cfg = any_rrdp_config();
+    let keep = server.find_deltas_truncate_age(cfg);
+    assert!(keep <= 3);
+    // never more than the maximum, counting the delta about to be added
+    assert!(keep + 1 <= cfg.rrdp_delta_files_max_nr || keep <= cfg.rrdp_delta_files_min_nr
+        || ages[keep - 1] < cfg.rrdp_delta_files_min_seconds);
+    // the minimum number is honoured when that many exist
+    let min_wanted = if cfg.rrdp_delta_files_min_nr < 3 { cfg.rrdp_delta_files_min_nr } else { 3 };
+    assert!(keep >= min_wanted);
+    // everything younger than the minimum age is kept
+    let mut i = 0;
+    while i < 3 {
+        if ages[i] < cfg.rrdp_delta_files_min_seconds { assert!(keep > i); }
+        i += 1;
+    }
+    // nothing beyond the minimum rules is older than the maximum age
+    if keep > 0 && keep > cfg.rrdp_delta_files_min_nr
+        && ages[keep - 1] >= cfg.rrdp_delta_files_min_seconds {
+        assert!(ages[keep - 1] <= cfg.rrdp_delta_files_max_seconds);
+    }
+    kani::cover!(keep == 0);
+    kani::cover!(keep == 1);
+    kani::cover!(keep == 3);
+    kani::cover!(keep == 2 && cfg.rrdp_delta_files_max_nr == 3);
+    kani::cover!(keep == 1 && cfg.rrdp_delta_files_max_nr > 3 && cfg.rrdp_delta_files_min_nr == 0);
+    std::mem::forget(slot);
+}
+
+/// One in-memory RRDP update: the serial grows by exactly one, the new delta
+/// carries the new serial and sits in front of the retained older ones, which
+/// are a prefix of the previous list; so if the retained deltas were a
+/// contiguous run ending at the old serial they are one ending at the new.
+// vk: bound=2 existing deltas (no elements), no staged publishers, truncate position 0..=3, serial any u64 below u64::MAX
+#[kani::proof]
+#[kani::unwind(6)]
+#[kani::stub(rpki::repository::x509::Time::now, stub_now)]
+#[kani::stub(std::hash::RandomState::new, fixed_random_state)]
+#[kani::stub(<std::hash::DefaultHasher as std::hash::Hasher>::finish, const_finish)]
+#[kani::stub(<std::hash::DefaultHasher as std::hash::Hasher>::write, noop_write)]
+fn c11b_update_step_serial_and_contiguity() {
+    let now = sym_now();
+    let serial: u64 = kani::any();
+    kani::assume(serial >= 2 && serial < u64::MAX);
+    let mut deltas = VecDeque::new();
+    deltas.push_back(delta_at(serial, 10, now));
+    deltas.push_back(delta_at(serial - 1, 20, now));
+    let mut slot = std::mem::MaybeUninit::<RrdpServer>::uninit();
+    let p = slot.as_mut_ptr();
+    unsafe {
+        std::ptr::addr_of_mut!((*p).deltas).write(deltas);
+        std::ptr::addr_of_mut!((*p).serial).write(serial);
+        std::ptr::addr_of_mut!((*p).last_update).write(t0());
+        std::ptr::addr_of_mut!((*p).staged_elements).write(HashMap::new());
+        std::ptr::addr_of_mut!((*p).snapshot).write(
+            SnapshotData::new(RrdpFileRandom(String::new()), HashMap::new()));
+    }
+    let server: &mut RrdpServer = unsafe { &mut *p };
+    let truncate: usize = kani::any();
+    kani::assume(truncate <= 3);
+    server.apply_rrdp_updated(RrdpUpdated { time: now, random: RrdpFileRandom(String::new()), deltas_truncate: truncate });
+    assert!(server.serial == serial + 1);
+    assert!(server.last_update == now);
+    let kept_old = if truncate < 2 { truncate } else { 2 };
+    assert!(server.deltas.len() == kept_old + 1);
+    // newest first, contiguous, ending at the current serial
+    let mut i = 0;
+    while i < server.deltas.len() {
+        assert!(server.deltas[i].serial() == serial + 1 - i as u64);
+        i += 1;
+    }
+    kani::cover!(truncate == 0);
+    kani::cover!(truncate == 1);
+    kani::cover!(truncate == 3);
+    std::mem::forget(slot);
+}
+
 #[cfg(test)]
 #[path = "/verif/.cache/playback/server_pubd_rrdp.rs"]
 mod playback;
